@@ -42,6 +42,20 @@ CLAIMED["C17"] = dict(
    note="Trusted as C16. The behaviour tables are written out in the sidecar contract so that an edit of the repository's tables is noticed. Domain per the statement: upper-case keys, SSC-only properties hold strings, non-empty templates; the bare KeyError for chart keys the SM chart cannot hold is the given known finding and is reported. The SM->SSC->SM round-trip clause follows from the two mapping equations; not mechanised.",
    technique="contract-based deductive verification: loop invariants over prefix spec functions on the real AST, z3/cvc5",
    design_ref="6/C17")
+_SER_NOTE = "Trusted: msdparser tokenization/escaping (T-MSD, the trusted base the properties name), ordered-map theory incl. reconstruction, string laws S1/S3/S4 (join/split inverse, strip of whitespace-decorated text, upper idempotent), charts as values, VC generator, z3/cvc5. The composition with T-MSD-1 (the parameters of the written text are the written parameters) is stated, not mechanised; values in msdparser's escaping gaps are excluded as the property says."
+CLAIMED["C01"] = dict(
+   category="proof",
+   text="Layer 1 (real AST, all inputs, all iteration counts): BaseSimfile.serialize, BaseCharts.serialize and SMChart.serialize emit exactly the parameter sequence the statement prescribes (one parameter per item in order, key only for a None value, ATTACKS/DISPLAYBPM split into components, blank line, one NOTES parameter per chart with the six fields in the documented order plus extra components) - loop invariants over prefix spec functions on a ghost fragment list; SMSimfile._parse and the five SMChart constructors compute the documented fold. Layer 2: per-element round-trip lemmas (loading rules applied to the emitted parameter give back key/value and the six chart fields) discharged by SMT over the two contracts.",
+   note=_SER_NOTE, technique="contract-based deductive verification: ghost output fragments, loop invariants over prefix spec functions, SMT lemmas over the contracts", design_ref="6/C01")
+CLAIMED["C02"] = dict(
+   category="proof",
+   text="As C01 for SSC: SSCChart.serialize emits NOTEDATA, every item whose key is not the notes key in order, the note data item last and a blank line - stated over keys, with string identity modelled as not determined by values, so any implementation that recognises the note data by object identity or value fails the loop invariant; SSCSimfile._parse (with the partial-chart state) and SSCChart._parse/from_str compute the documented fold (keys upper-cased, stop at the first NOTES/NOTES2).",
+   note=_SER_NOTE, technique="contract-based deductive verification: ghost output fragments, loop invariants over prefix spec functions, SMT lemmas over the contracts", design_ref="6/C02")
+CLAIMED["C03"] = dict(
+   category="proof",
+   text="Every entry point (loads, load on StringIO / open text file with arbitrary name and position / iterator of lines, open, open_with_detected_encoding, both class constructors with string= and file=, SSCChart.from_str, SMChart.from_str/from_msd/_parse) is symbolically executed and proved to return BUILD_fmt(msd_params(content handed over, not strict)) with fmt by the statement's rule, so all entry points agree; the tokenizer is called on exactly the content handed over with ignore_stray_text == not strict (flag threading and stream position as obligations); MSDParserError only when strict and the tokenizer reports stray text. The per-parameter rules are the loop invariants of the _parse methods.",
+   note="Trusted: msdparser.parse_msd as the lazy tokenizer (T-MSD-3, incl. 'reads at least one chunk before yielding' and 'ignore_stray_text never raises'), ghost file system/codecs for open(), ordered-map theory, str.lower/upper/endswith, ''.join(lines) is the text, itertools.tee, VC generator, z3/cvc5. Which of ValueError/MSDParserError comes first when both apply is not specified.",
+   technique="contract-based deductive verification: path-wise symbolic execution of all entry points against one postcondition; z3/cvc5", design_ref="6/C03")
 NA_REASON = "not yet brought under contract in this session (work in progress; see DESIGN.md section 6 for the plan)"
 
 NA_TABLE = {}
